@@ -518,7 +518,8 @@ class IdealPoint(Point):
 
 
         result = utils.zeros(np.array(theta).shape + (dimension + 1,),
-                             like=like, dtype=dtype, base_ring=base_ring)
+                             like=like, dtype=dtype, base_ring=base_ring,
+                             integer_type=False)
 
         result[..., 0] = one
 
@@ -1896,7 +1897,7 @@ class Isometry(projective.Transformation, HyperbolicObject):
             like = angle
 
         affine = utils.identity(
-            dimension, like=like, **kwargs
+            dimension, like=like, integer_type=False, **kwargs
         )
 
         affine[0:2, 0:2] = utils.rotation_matrix(
@@ -1904,7 +1905,7 @@ class Isometry(projective.Transformation, HyperbolicObject):
         )
 
         return Isometry.elliptic(dimension, affine,
-                                 like=like, **kwargs)
+                                 like=affine, **kwargs)
 
     @staticmethod
     def from_sl2(matrix, **kwargs):
